@@ -230,6 +230,10 @@ def run_tlc(workdir, module, cfg, workers=4, timeout=600, extra=None, heap=None,
     if heap:
         java += ["-Xmx" + heap]
     java += ["-XX:+UseParallelGC", "-Xss64m"]
+    # TLC unpacks its standard modules into java.io.tmpdir (one tlc-<n> folder per run): keep that inside the scratch dir
+    jtmp = os.path.join(workdir, "jtmp")
+    os.makedirs(jtmp, exist_ok=True)
+    java.append("-Djava.io.tmpdir=" + jtmp)
     for p in (jvm_props or []):
         java.append("-D" + p)
     cp = TLA_JAR
